@@ -236,4 +236,292 @@ example : decodeFrame 6 [0x93, 0x86, 0x00, 7, 0, 1, 0x41, 0xEE, 0xFF] =
     encodeFrame 6 (.disconnect { noPersist := true, redDot := true } { reasonCode := 7, reason := [0x41] }) =
     .ok [0x93, 4, 7, 0, 1, 0x41] := by decide
 
+/-! ## the four frame types with optional wire fields -/
+
+/-- `decConnack` with the optional reads as explicit conditional parsers -/
+def decConnack' (v : Nat) (h : Flags) (b : Bytes) : Option Frame :=
+  (if h.hsv = true then getU8 b else some (0, b)).bind fun (serverVersion, b) =>
+  (getU64 b).bind fun (timeDiff, b) =>
+  (getU8 b).bind fun (reasonCode, b) =>
+  (getStr b).bind fun (serverKey, b) =>
+  (getStr b).bind fun (salt, b) =>
+  (if v ≥ 4 then getU64 b else some (0, b)).bind fun (nodeId, _) =>
+  some (.connack h { serverVersion, timeDiff, reasonCode, serverKey, salt, nodeId })
+
+theorem decConnack_eq (v : Nat) (h : Flags) (b : Bytes) : decConnack v h b = decConnack' v h b := by
+  unfold decConnack decConnack'
+  by_cases c1 : h.hsv = true <;> by_cases c6 : v ≥ 4 <;> simp [c1, c6, bind, pure]
+
+theorem decConnack_inv {v : Nat} {h : Flags} {b : Bytes} {f : Frame} (hd : decConnack v h b = some f) :
+    FieldsOk v f ∧ bodySize v f ≤ b.length := by
+  rw [decConnack_eq] at hd
+  simp only [decConnack', Option.bind_eq_some_iff, Option.some.injEq, Prod.exists] at hd
+  obtain ⟨x1, r1, h1, x2, r2, h2, x3, r3, h3, x4, r4, h4, x5, r5, h5, x6, r6, h6, rfl⟩ := hd
+  have a1 := getU8_if_spec h1; have := getU64_spec h2; have := getU8_spec h3; have := getStr_spec h4
+  have := getStr_spec h5; have a6 := getU64_if_spec h6
+  simp only [FieldsOk, bodySize, sizeConnack, u8, u64, strOk, maxInt16]
+  by_cases c1 : h.hsv = true <;> by_cases c6 : v ≥ 4 <;> simp [c1, c6] at a1 a6 ⊢ <;> omega
+
+
+/-! ### SEND -/
+
+def decSend' (v : Nat) (h : Flags) (b : Bytes) : Option Frame :=
+  (getU8 b).bind fun (setting, b) =>
+  (getU32 b).bind fun (clientSeq, b) =>
+  (getStr b).bind fun (clientMsgNo, b) =>
+  (if streamOn v setting = true then getStr b else some ([], b)).bind fun (streamNo, b) =>
+  (getStr b).bind fun (channelID, b) =>
+  (getU8 b).bind fun (channelType, b) =>
+  (if v ≥ 3 then getU32 b else some (0, b)).bind fun (expire, b) =>
+  (getStr b).bind fun (msgKey, b) =>
+  (if topicOn setting = true then getStr b else some ([], b)).bind fun (topic, b) =>
+  some (.send h { setting, clientSeq, clientMsgNo, streamNo, channelID, channelType, expire, msgKey, topic,
+                  payload := b })
+
+theorem decSend_eq (v : Nat) (h : Flags) (b : Bytes) : decSend v h b = decSend' v h b := by
+  unfold decSend decSend'
+  cases h1 : getU8 b with
+  | none => simp [bind]
+  | some pr =>
+    obtain ⟨setting, r⟩ := pr
+    by_cases c4 : streamOn v setting = true <;> by_cases c7 : v ≥ 3 <;> by_cases c9 : topicOn setting = true <;>
+      simp [c4, c7, c9, bind, pure]
+
+/-- a decoded SEND is within the field limits as soon as its payload is (the decoder itself
+    bounds the payload only by the frame size) -/
+theorem decSend_inv {v : Nat} {h : Flags} {b : Bytes} {f : Frame} (hd : decSend v h b = some f)
+    (hp : sendTooLarge f = false) : FieldsOk v f ∧ bodySize v f ≤ b.length := by
+  rw [decSend_eq] at hd
+  simp only [decSend', Option.bind_eq_some_iff, Option.some.injEq, Prod.exists] at hd
+  obtain ⟨x1, r1, h1, x2, r2, h2, x3, r3, h3, x4, r4, h4, x5, r5, h5, x6, r6, h6, x7, r7, h7, x8, r8, h8,
+    x9, r9, h9, rfl⟩ := hd
+  have := getU8_spec h1; have := getU32_spec h2; have := getStr_spec h3; have a4 := getStr_if_spec h4
+  have := getStr_spec h5; have := getU8_spec h6; have a7 := getU32_if_spec h7; have := getStr_spec h8
+  have a9 := getStr_if_spec h9
+  simp [sendTooLarge, payloadMaxSize] at hp
+  simp only [FieldsOk, bodySize, sizeSend, u8, u32, strOk, maxInt16, payloadMaxSize]
+  by_cases c4 : streamOn v x1 = true <;> by_cases c7 : v ≥ 3 <;> by_cases c9 : topicOn x1 = true <;>
+    simp [c4, c7, c9] at a4 a7 a9 ⊢ <;> omega
+
+
+/-! ### RECV -/
+
+def streamBlock (b : Bytes) : Option ((Nat × Bytes × Nat) × Bytes) :=
+  (getU8 b).bind fun (sf, b) => (getStr b).bind fun (sn, b) => (getU64 b).bind fun (si, b) => some ((sf, sn, si), b)
+
+theorem streamBlock_if_spec {c : Prop} [Decidable c] {b r : Bytes} {sf si : Nat} {sn : Bytes}
+    (h : (if c then streamBlock b else some ((0, [], 0), b)) = some ((sf, sn, si), r)) :
+    sf < 256 ∧ sn.length ≤ 32767 ∧ si < 18446744073709551616 ∧
+    (c → b.length = r.length + 1 + (sn.length + 2) + 8) ∧ (¬ c → b.length = r.length ∧ sf = 0 ∧ sn = [] ∧ si = 0) := by
+  by_cases hc : c
+  · simp only [hc, if_true, streamBlock, Option.bind_eq_some_iff, Option.some.injEq, Prod.exists, Prod.mk.injEq] at h
+    obtain ⟨x1, r1, h1, x2, r2, h2, x3, r3, h3, ⟨rfl, rfl, rfl⟩, rfl⟩ := h
+    have := getU8_spec h1; have := getStr_spec h2; have := getU64_spec h3
+    exact ⟨by omega, by omega, by omega, fun _ => by omega, fun hn => absurd hc hn⟩
+  · simp only [hc, if_false, Option.some.injEq, Prod.mk.injEq] at h
+    obtain ⟨⟨rfl, rfl, rfl⟩, rfl⟩ := h
+    exact ⟨by omega, by simp, by omega, fun hn => absurd hn hc, fun _ => ⟨rfl, rfl, rfl, rfl⟩⟩
+
+def decRecv' (v : Nat) (h : Flags) (b : Bytes) : Option Frame :=
+  (getU8 b).bind fun (setting, b) =>
+  (getStr b).bind fun (msgKey, b) =>
+  (getStr b).bind fun (fromUID, b) =>
+  (getStr b).bind fun (channelID, b) =>
+  (getU8 b).bind fun (channelType, b) =>
+  (if v ≥ 3 then getU32 b else some (0, b)).bind fun (expire, b) =>
+  (getStr b).bind fun (clientMsgNo, b) =>
+  (if streamOn v setting = true then streamBlock b else some ((0, [], 0), b)).bind fun ((streamFlag, streamNo, streamId), b) =>
+  (getU64 b).bind fun (messageID, b) =>
+  (getSeq v b).bind fun (messageSeq, b) =>
+  (getU32 b).bind fun (timestamp, b) =>
+  (if topicOn setting = true then getStr b else some ([], b)).bind fun (topic, b) =>
+  some (.recv h { setting, msgKey, fromUID, channelID, channelType, expire, clientMsgNo, streamFlag, streamNo,
+                  streamId, messageID, messageSeq, timestamp, topic, payload := b })
+
+theorem decRecv_eq (v : Nat) (h : Flags) (b : Bytes) : decRecv v h b = decRecv' v h b := by
+  unfold decRecv decRecv'
+  cases h1 : getU8 b with
+  | none => simp [bind]
+  | some pr =>
+    obtain ⟨setting, r⟩ := pr
+    by_cases c4 : streamOn v setting = true <;> by_cases c7 : v ≥ 3 <;> by_cases c9 : topicOn setting = true <;>
+      simp [c4, c7, c9, bind, pure, streamBlock, Option.bind_assoc]
+
+theorem decRecv_inv {v : Nat} {h : Flags} {b : Bytes} {f : Frame} (hd : decRecv v h b = some f) :
+    FieldsOk v f ∧ bodySize v f ≤ b.length := by
+  rw [decRecv_eq] at hd
+  simp only [decRecv', Option.bind_eq_some_iff, Option.some.injEq, Prod.exists] at hd
+  obtain ⟨x1, r1, h1, x2, r2, h2, x3, r3, h3, x4, r4, h4, x5, r5, h5, x6, r6, h6, x7, r7, h7,
+    sf, sn, si, r8, h8, x9, r9, h9, x10, r10, h10, x11, r11, h11, x12, r12, h12, rfl⟩ := hd
+  have := getU8_spec h1; have := getStr_spec h2; have := getStr_spec h3; have := getStr_spec h4
+  have := getU8_spec h5; have a6 := getU32_if_spec h6; have := getStr_spec h7
+  have a8 := streamBlock_if_spec h8
+  have := getU64_spec h9; have s10 := getSeq_spec h10; have := getU32_spec h11
+  have a12 := getStr_if_spec h12
+  simp only [FieldsOk, bodySize, sizeRecv, u8, u32, u64, strOk, maxInt16]
+  refine ⟨⟨by omega, by omega, by omega, by omega, by omega, by omega, by omega, by omega, by omega, by omega,
+    by omega, s10.1, by omega, by omega⟩, ?_⟩
+  by_cases c4 : streamOn v x1 = true <;> by_cases c7 : v ≥ 3 <;> by_cases c9 : topicOn x1 = true <;>
+    simp [c4, c7, c9] at a6 a8 a12 ⊢ <;> omega
+
+
+/-! ### SENDACK -/
+
+def sendackCoreFirst' (v : Nat) (b : Bytes) : Option (Bytes × Nat × Nat) :=
+  (getSeq v b).bind fun (seq, b) =>
+  (getU8 b).bind fun (rc, b) =>
+  (if b.length > 0 then getStr b else some ([], b)).bind fun (no, b) =>
+  if b.length ≠ 0 then none else some (no, seq, rc)
+
+theorem sendackCoreFirst_eq (v : Nat) (b : Bytes) : sendackCoreFirst v b = sendackCoreFirst' v b := by
+  unfold sendackCoreFirst sendackCoreFirst'
+  cases h1 : getSeq v b with
+  | none => simp [bind]
+  | some pr =>
+    obtain ⟨seq, r⟩ := pr
+    cases h2 : getU8 r with
+    | none => simp [h2, bind]
+    | some pr2 =>
+      obtain ⟨rc, r2⟩ := pr2
+      by_cases c : r2.length > 0 <;> simp [h2, c, bind, pure]
+
+theorem sendackBody_spec {v : Nat} {b no : Bytes} {seq rc : Nat} (h : sendackBody v b = some (no, seq, rc)) :
+    no.length ≤ 32767 ∧ seqOk v seq ∧ rc < 256 ∧
+    seqSize v + 1 + (if no.isEmpty then 0 else no.length + 2) ≤ b.length := by
+  unfold sendackBody at h
+  cases hc : sendackCoreFirst v b with
+  | some r =>
+    simp only [hc, Option.some.injEq] at h
+    subst h
+    rw [sendackCoreFirst_eq] at hc
+    simp only [sendackCoreFirst', Option.bind_eq_some_iff, Prod.exists] at hc
+    obtain ⟨x1, r1, h1, x2, r2, h2, x3, r3, h3, h4⟩ := hc
+    have s1 := getSeq_spec h1; have := getU8_spec h2; have a3 := getStr_if_spec h3
+    by_cases c0 : r3.length ≠ 0
+    · simp [c0] at h4
+    · simp only [c0, if_false, Option.some.injEq, Prod.mk.injEq] at h4
+      obtain ⟨rfl, rfl, rfl⟩ := h4
+      refine ⟨a3.1, s1.1, by omega, ?_⟩
+      by_cases c : r2.length > 0
+      · have := a3.2.1 c
+        split <;> omega
+      · have := a3.2.2 c
+        simp [this.2]; omega
+  | none =>
+    simp only [hc] at h
+    simp only [sendackNoFirst, bind, Option.bind_eq_some_iff, pure, Prod.exists] at h
+    obtain ⟨x1, r1, h1, x2, r2, h2, x3, r3, h3, h4⟩ := h
+    have := getStr_spec h1; have s2 := getSeq_spec h2; have := getU8_spec h3
+    by_cases c0 : r3.length ≠ 0
+    · simp [c0] at h4
+    · simp only [c0, if_false, Option.some.injEq, Prod.mk.injEq] at h4
+      obtain ⟨rfl, rfl, rfl⟩ := h4
+      refine ⟨by omega, s2.1, by omega, ?_⟩
+      split <;> omega
+
+theorem decSendack_inv {v : Nat} {h : Flags} {b : Bytes} {f : Frame} (hd : decSendack v h b = some f) :
+    FieldsOk v f ∧ bodySize v f ≤ b.length := by
+  simp only [decSendack, bind, Option.bind_eq_some_iff, pure, Option.some.injEq, Prod.exists] at hd
+  obtain ⟨x1, r1, h1, x2, r2, h2, no, seq, rc, h3, rfl⟩ := hd
+  have := getU64_spec h1; have := getU32_spec h2; have s3 := sendackBody_spec h3
+  simp only [FieldsOk, bodySize, sizeSendack, u8, u32, u64, strOk, maxInt16]
+  refine ⟨⟨by omega, by omega, s3.2.1, s3.2.2.1, s3.1⟩, ?_⟩
+  have := s3.2.2.2
+  split at this <;> simp_all <;> omega
+
+
+/-! ### re-encode theorems -/
+
+/-- CONNACK: whatever body the decoder accepted, the decoded frame re-encodes and round-trips. -/
+theorem c22_reencode_connack (v : Nat) (h : Flags) (b rest : Bytes) (f : Frame)
+    (hd : decConnack v h b = some f) (hb : b.length ≤ maxRemainingLength) :
+    ∃ bs, encodeFrame v f = .ok bs ∧ decodeFrame v (bs ++ rest) = .ok (norm v f) bs.length := by
+  have := decConnack_inv hd
+  exact c22_roundtrip v f rest ⟨this.1, by omega⟩
+
+/-- SEND: the same, provided the decoded payload is one the encoder accepts (the decoder
+    bounds a SEND payload only by the frame size, the encoder by PayloadMaxSize). -/
+theorem c22_reencode_send (v : Nat) (h : Flags) (b rest : Bytes) (f : Frame)
+    (hd : decSend v h b = some f) (hp : sendTooLarge f = false) (hb : b.length ≤ maxRemainingLength) :
+    ∃ bs, encodeFrame v f = .ok bs ∧ decodeFrame v (bs ++ rest) = .ok (norm v f) bs.length := by
+  have := decSend_inv hd hp
+  exact c22_roundtrip v f rest ⟨this.1, by omega⟩
+
+/-- SENDACK, for both accepted body layouts (core-first and client-msg-no-first). -/
+theorem c22_reencode_sendack (v : Nat) (h : Flags) (b rest : Bytes) (f : Frame)
+    (hd : decSendack v h b = some f) (hb : b.length ≤ maxRemainingLength) :
+    ∃ bs, encodeFrame v f = .ok bs ∧ decodeFrame v (bs ++ rest) = .ok (norm v f) bs.length := by
+  have := decSendack_inv hd
+  exact c22_roundtrip v f rest ⟨this.1, by omega⟩
+
+/-- RECV. -/
+theorem c22_reencode_recv (v : Nat) (h : Flags) (b rest : Bytes) (f : Frame)
+    (hd : decRecv v h b = some f) (hb : b.length ≤ maxRemainingLength) :
+    ∃ bs, encodeFrame v f = .ok bs ∧ decodeFrame v (bs ++ rest) = .ok (norm v f) bs.length := by
+  have := decRecv_inv hd
+  exact c22_roundtrip v f rest ⟨this.1, by omega⟩
+
+/-- **Decoded frames re-encode** — all 12 frame types, all versions, ARBITRARY input bytes:
+    if `DecodeFrame` returns a frame (and, for a SEND, its payload is one the encoder
+    accepts), that frame is within the protocol limits, `EncodeFrame` succeeds on it, and
+    decoding the re-encoding (followed by any bytes) yields its normal form and consumes
+    exactly the re-encoding. -/
+theorem c22_decode_reencode (v : Nat) (data rest : Bytes) (f : Frame) (n : Nat)
+    (hd : decodeFrame v data = .ok f n) (hp : sendTooLarge f = false) :
+    ∃ bs, encodeFrame v f = .ok bs ∧ decodeFrame v (bs ++ rest) = .ok (norm v f) bs.length := by
+  cases data with
+  | nil => simp [decodeFrame] at hd
+  | cons b0 tl =>
+  apply c22_roundtrip
+  simp only [decodeFrame] at hd
+  split at hd
+  · cases hd
+  · rename_i ft hh rl rll hhdr
+    split at hd
+    · cases hd
+    · split at hd
+      · simp only [DecRes.ok.injEq] at hd; rw [← hd.1]; exact ⟨trivial, by simp [bodySize, maxRemainingLength]⟩
+      · split at hd
+        · simp only [DecRes.ok.injEq] at hd; rw [← hd.1]; exact ⟨trivial, by simp [bodySize, maxRemainingLength]⟩
+        · split at hd
+          · cases hd
+          · rename_i hmax
+            split at hd
+            · cases hd
+            · rename_i hlen
+              have hbl : ((List.drop (1 + rll) (b0 :: tl)).take rl).length ≤ maxRemainingLength := by
+                simp only [List.length_take]; omega
+              generalize (List.drop (1 + rll) (b0 :: tl)).take rl = body at hd hbl
+              split at hd
+              · cases hd
+              · cases hd
+              · rename_i f' hb
+                simp only [DecRes.ok.injEq] at hd
+                obtain ⟨rfl, _⟩ := hd
+                unfold decodeBody at hb
+                split at hb <;> simp only [Option.some.injEq, reduceCtorEq] at hb
+                · have := decConnect_inv v hb; exact ⟨this.1, by omega⟩
+                · have := decConnack_inv hb; exact ⟨this.1, by omega⟩
+                · have := decSend_inv hb hp; exact ⟨this.1, by omega⟩
+                · have := decSendack_inv hb; exact ⟨this.1, by omega⟩
+                · have := decRecv_inv hb; exact ⟨this.1, by omega⟩
+                · have := decRecvack_inv hb; exact ⟨this.1, by omega⟩
+                · have := decDisconnect_inv v hb; exact ⟨this.1, by omega⟩
+                · have := decSub_inv v hb; exact ⟨this.1, by omega⟩
+                · have := decSuback_inv v hb; exact ⟨this.1, by omega⟩
+                · have := decEvent_inv v hb; exact ⟨this.1, by omega⟩
+
+/-- non-vacuity: a SENDACK in the transitional client-msg-no-first layout (version 6) is
+    accepted, and the decoded frame re-encodes to the core-first layout -/
+example : decodeFrame 6 ([0x40, 25] ++ [0,0,0,0,0,0,0,9] ++ [0,0,0,1] ++ [0, 2, 0x61, 0x62] ++ [0,0,0,0,0,0,0,7] ++ [1]) =
+      .ok (.sendack {} { messageID := 9, clientSeq := 1, messageSeq := 7, reasonCode := 1, clientMsgNo := [0x61, 0x62] }) 27 ∧
+    encodeFrame 6 (.sendack {} { messageID := 9, clientSeq := 1, messageSeq := 7, reasonCode := 1, clientMsgNo := [0x61, 0x62] }) =
+      .ok ([0x40, 25] ++ [0,0,0,0,0,0,0,9] ++ [0,0,0,1] ++ [0,0,0,0,0,0,0,7] ++ [1] ++ [0, 2, 0x61, 0x62]) := by decide
+
+/-- non-vacuity for the SEND side condition: the decoder accepts a 40000-byte payload that
+    the encoder refuses -/
+example : sendTooLarge (.send {} ⟨0, 0, [], [], [], 0, 0, [], [], List.replicate 40000 0⟩) = true := by
+  simp only [sendTooLarge, List.length_replicate, payloadMaxSize]
+  decide
+
 end WK.C22
